@@ -26,7 +26,9 @@ RULE = (
     "whose cell values encode (variable, row, column), float64/float32/int64 data with optional NaN holes, default or custom dims, "
     "1-D axis vectors or 2-D meshgrids (C/F order, read-only), Dataset / named / unnamed DataArray inputs with coordinates declared in either "
     "order; plus clear non-meshgrids (deviation >= 10 % of the node spacing, transposed or ij-indexed arrays), wrong name counts, and nested uses "
-    "through BaseGridder.grid and project_grid; grids whose variables / extra coordinates are dask arrays with >= 2 chunks along the second "
+    "through BaseGridder.grid and project_grid; non-meshgrids on non-uniform axes spanning 5+ orders of magnitude with ONE small-valued node "
+    "displaced by 30-60 % of its local spacing (tiny against the largest coordinate); int64 / uint64 variables and extra coordinates beyond "
+    "2**53; grids whose variables / extra coordinates are dask arrays with >= 2 chunks along the second "
     "dimension (even, uneven, both dimensions, only some members chunked); non-meshgrids of projected size that drift gradually (sheared / "
     "rotated so that neighbouring rows agree within numpy.allclose's tolerance while first and last differ by 12..40 times it; drifts of 0.5 and "
     "2 times the tolerance are counted either-way); name collisions (a DataArray pulled out of a grid by the name of one of its 1..3 extra coordinates, "
@@ -45,7 +47,7 @@ RULE = (
 ASSUMPTIONS = [
     "cell values, coordinates and extra coordinates must be copied, so they are compared exactly (NaN position-wise)",
     "a 2-D input is a *clear* non-meshgrid when it deviates from its first row/column by >= 10 % of the smallest node spacing and by "
-    ">= 10 x (1e-8 + 1e-5 |coordinate|), ten times numpy.allclose's default tolerance (the verdict then does not depend on the tolerance "
+    ">= 10 x (1e-8 + 1e-5 |coordinate|) of THAT node (decided per element), ten times numpy.allclose's default tolerance (the verdict then does not depend on the tolerance "
     "convention; this includes arrays that drift gradually, every row within tolerance of its neighbour); inputs that deviate less are "
     "either-way (counted, not failed) and the returned axis value may be any of the column's values",
     "grid_to_table is judged on grids whose variables and extra coordinates all use the dimension order of the first variable "
@@ -65,6 +67,9 @@ _QUICK_FLOORS = {
     "eval:make_grid_as_intended": 1000, "class:make_call_positional_dims_custom_dims": 80,
     "class:make_call_positional_dims_and_extra_coords_names_custom_dims": 150, "class:make_call_positional_with_extra_coordinates": 200,
     "class:make_call_positional_without_extra_coordinates": 150, "class:make_call_all_keywords": 140,
+    # one displaced small node on axes spanning orders of magnitude; integers beyond 2**53
+    "class:check_meshgrid_displacement_small_against_largest_coordinate": 200, "refused:wide_range_non_meshgrid_clear": 200,
+    "class:table_integers_beyond_2**53": 60,
     # calls that rely on the documented defaults of make_xarray_grid
     "defaulted_argument:make_xarray_grid.dims": 300, "defaulted_argument:make_xarray_grid.extra_coords_names": 400,
     # lazily evaluated grids, gradually drifting non-meshgrids
@@ -177,16 +182,37 @@ def mesh_class(coordinates):
     if spacing:
         info["deviation_over_spacing"] = max(dev_e, dev_n) / spacing
     if spacing is not None:
-        # clearly not a meshgrid: off its first row / column by >= 10 % of the node spacing AND by >= 10 times the loosest reading of
-        # "equal" in use for coordinates of that magnitude (1e-8 + 1e-5 |coordinate|, numpy.allclose's defaults), per array
-        loose_e = 10 * (1e-8 + 1e-5 * float(np.max(np.abs(east))))
-        loose_n = 10 * (1e-8 + 1e-5 * float(np.max(np.abs(north))))
-        info.update(deviation_over_loose_tolerance=max(dev_e / loose_e, dev_n / loose_n) * 10)
-        if (dev_e >= 0.1 * spacing and dev_e >= loose_e) or (dev_n >= 0.1 * spacing and dev_n >= loose_n):
+        # clearly not a meshgrid, decided PER ELEMENT: some node is off the node of its column in the first row (of its row in the
+        # first column) by >= 10 % of the local node spacing AND by >= 10 times the loosest reading of "equal" for a coordinate of
+        # that magnitude (1e-8 + 1e-5 |coordinate|, numpy.allclose's defaults)
+        def local_spacing(axis):
+            if axis.size < 2:
+                return np.full(axis.shape, spacing)
+            order = np.argsort(axis)
+            gaps = np.diff(axis[order])
+            nearest = np.minimum(np.concatenate([[np.inf], gaps]), np.concatenate([gaps, [np.inf]]))
+            out = np.empty(axis.shape)
+            out[order] = np.where(nearest > 0, nearest, spacing)
+            return out
+
+        d_e, d_n = np.abs(east - east[0:1, :]), np.abs(north - north[:, 0:1])
+        loose_e = 10 * (1e-8 + 1e-5 * np.maximum(np.abs(east), np.abs(east[0:1, :])))
+        loose_n = 10 * (1e-8 + 1e-5 * np.maximum(np.abs(north), np.abs(north[:, 0:1])))
+        clear_e = (d_e >= 0.1 * local_spacing(east[0, :])[None, :]) & (d_e >= loose_e)
+        clear_n = (d_n >= 0.1 * local_spacing(north[:, 0])[:, None]) & (d_n >= loose_n)
+        info.update(deviation_over_loose_tolerance=float(max(np.max(d_e / loose_e), np.max(d_n / loose_n)) * 10))
+        if np.any(clear_e) or np.any(clear_n):
             # drifting: every row / column within the loose tolerance of its NEIGHBOUR although far from the first one
-            step_e = float(np.max(np.abs(np.diff(east, axis=0)))) if east.shape[0] > 1 else 0.0
-            step_n = float(np.max(np.abs(np.diff(north, axis=1)))) if north.shape[1] > 1 else 0.0
-            info["drifting"] = bool(step_e <= loose_e / 10 and step_n <= loose_n / 10)
+            step_e = np.abs(np.diff(east, axis=0)) if east.shape[0] > 1 else np.zeros((1, 1))
+            step_n = np.abs(np.diff(north, axis=1)) if north.shape[1] > 1 else np.zeros((1, 1))
+            info["drifting"] = bool(np.all(step_e <= loose_e[1:] / 10 if east.shape[0] > 1 else True) and
+                                    np.all(step_n <= loose_n[:, 1:] / 10 if north.shape[1] > 1 else True) and
+                                    (east.shape[0] > 2 or north.shape[1] > 2))
+            # a displacement that is tiny against the largest coordinate of its axis (a single tolerance per axis would miss it)
+            big_e, big_n = 1e-5 * float(np.max(np.abs(east))), 1e-5 * float(np.max(np.abs(north)))
+            info["small_against_largest_coordinate"] = bool(
+                (not np.any(clear_e) or float(np.max(d_e[clear_e])) < big_e) and (not np.any(clear_n) or float(np.max(d_n[clear_n])) < big_n)
+                and not (np.any(d_e >= big_e) or np.any(d_n >= big_n)))
             return "clear", info
     return "gray", info
 
@@ -232,6 +258,8 @@ def install(tap, run):
         run.count("class:check_meshgrid_" + kind)
         if info.get("drifting"):
             run.count("class:check_meshgrid_drifting_non_meshgrid")
+        if info.get("small_against_largest_coordinate"):
+            run.count("class:check_meshgrid_displacement_small_against_largest_coordinate")
         witness = {"easting": np.asarray(coords[0]), "northing": np.asarray(coords[1]), "class": kind, "info": info,
                    "raised": repr(ev.exc)}
         if kind == "exact" and ev.exc is not None:
@@ -563,6 +591,9 @@ def install(tap, run):
             run.count("spelling:table_falsy_name=%r" % (grid.name,))
         if np.asarray(grid.coords[dims[0]].values).dtype.kind in "iu":
             run.count("spelling:table_integer_axes")
+        if any(arr.dtype.kind in "iu" and arr.size and float(np.abs(np.asarray(arr.values).astype("float64")).max()) > 2.0 ** 53
+               for arr in arrays + [grid.coords[c] for c in extras]):
+            run.count("class:table_integers_beyond_2**53")
         lazy = [arr for arr in arrays + [grid.coords[c] for c in extras] if hasattr(arr.data, "chunks")]
         if lazy:
             run.count("class:table_dask_arrays")
@@ -736,6 +767,15 @@ def gen_grid_inputs(rng, shape=None, force_2d=None):
         dtype = str(rng.choice(["float64", "float64", "float64", "float32", "int64"]))
         datas.append(encode("data", k, shape, rng, dtype=dtype, holes=(dtype == "float64" and rng.random() < 0.15)))
     extras = [encode("extra", k, shape, rng) for k in range(n_extra)]
+    if rng.random() < 0.08:
+        # integers beyond 2**53 (nanosecond timestamps, uint64 ids): must come back exactly, next to float coordinates
+        ii, jj = np.indices(shape)
+        if rng.random() < 0.5:
+            datas[0] = (np.int64(1_700_000_000_000_000_000) + (ii * 1000 + jj).astype("int64") * np.int64(int(rng.integers(1, 1000))))
+        else:
+            datas[0] = (np.uint64(2 ** 63 + 12345) + (ii * 1000 + jj).astype("uint64"))
+        if extras and rng.random() < 0.5:
+            extras[0] = np.int64(1_699_999_999_000_000_007) - (ii * 1000 + jj).astype("int64")
     if rng.random() < 0.1:
         # contents that are falsy but valid: an extra coordinate / a variable that is exactly zero everywhere
         if extras:
@@ -782,6 +822,8 @@ def contain(rng, cfg, key, k, lists=True):
     """
     base = cfg[key][k]
     roll = rng.random()
+    if base.dtype.kind in "iu" and base.size and int(np.abs(base.astype("float64")).max()) > 2 ** 53:
+        return base  # exact integers beyond 2**53 have no float / NaN representation: keep the container
     if roll < 0.12 and base.size >= 2:
         mask = rng.random(base.shape) < 0.25
         mask.ravel()[int(rng.integers(0, base.size))] = True
@@ -1141,9 +1183,52 @@ def drifting_non_meshgrid(rng):
     return east, north, mode, level
 
 
+def wide_range_non_meshgrid(rng):
+    """
+    Non-uniform axes spanning five or more orders of magnitude (a few small-valued nodes, then nodes up to 2e5 .. 5e6, possibly
+    crossing zero); ONE small-valued node of one row (column) is displaced by 30-60 % of its local spacing - large against its own
+    value, tiny against the largest coordinate of the axis. Returns (east, north, which).
+    """
+    def axis(n_small, n_big):
+        small = np.cumsum(rng.uniform(0.3, 1.0, n_small)) - float(rng.choice([0.0, 1.0]))
+        big = np.sort(10 ** rng.uniform(2.5, float(rng.uniform(5.3, 6.7)), n_big))
+        vec = np.concatenate([small, big])
+        if rng.random() < 0.4:
+            vec = np.concatenate([-np.sort(10 ** rng.uniform(2.5, 6.0, 2))[::-1], vec])  # a long axis crossing zero
+        return vec, small
+
+    e_vec, e_small = axis(int(rng.integers(2, 5)), int(rng.integers(1, 4)))
+    n_vec, n_small = axis(int(rng.integers(2, 5)), int(rng.integers(1, 4)))
+    east, north = broadcast_mesh(e_vec, n_vec)
+    which = str(rng.choice(["easting", "northing"]))
+    if which == "easting":
+        j = int(np.argmin(np.abs(e_vec - e_small[int(rng.integers(0, e_small.size))])))
+        gap = np.min(np.abs(np.delete(e_vec, j) - e_vec[j]))
+        east[int(rng.integers(1, n_vec.size)), j] += float(rng.uniform(0.3, 0.6)) * gap * float(rng.choice([-1.0, 1.0]))
+    else:
+        i = int(np.argmin(np.abs(n_vec - n_small[int(rng.integers(0, n_small.size))])))
+        gap = np.min(np.abs(np.delete(n_vec, i) - n_vec[i]))
+        north[i, int(rng.integers(1, e_vec.size))] += float(rng.uniform(0.3, 0.6)) * gap * float(rng.choice([-1.0, 1.0]))
+    return east, north, which
+
+
 def _stream_reject(run, rng, vu, vd):
     from verde.base import BaseGridder
 
+    # one small node displaced on axes spanning several orders of magnitude (two per case)
+    for _ in range(2):
+        east, north, which = wide_range_non_meshgrid(rng)
+        kind, info = mesh_class((east, north))
+        run.count("class:wide_range_axis_displaced_%s_classified_%s" % (which, kind))
+        ii, jj = np.indices(east.shape)
+        for target, call in (("check_meshgrid", lambda: vu.check_meshgrid((east, north))),
+                             ("meshgrid_to_1d", lambda: vu.meshgrid_to_1d((east, north))),
+                             ("make_xarray_grid", lambda: vu.make_xarray_grid((east, north), 4096.0 * ii + jj, "field"))):
+            try:
+                call()
+                run.count("accepted_wide_range_%s:%s" % (kind, target))
+            except ValueError:
+                run.count("refused:wide_range_non_meshgrid_%s" % kind)
     # gradually drifting non-meshgrids (one per case)
     east, north, mode, level = drifting_non_meshgrid(rng)
     kind = mesh_class((east, north))[0]
@@ -1361,14 +1446,15 @@ def scribble(run, result):
         for arr in result[:2]:
             arr = np.asarray(arr)
             if arr.flags.writeable:
-                arr[...] = -4.25e7
+                arr[...] = 7 if arr.dtype.kind == "u" else -4.25e7
     elif isinstance(result, xr.Dataset):
         for name in list(result.variables):
             values = result[name].values
             if values.flags.writeable:
-                values[...] = -4.25e7
+                values[...] = 7 if values.dtype.kind == "u" else -4.25e7
     elif isinstance(result, pd.DataFrame):
-        result.iloc[:, :] = -4.25e7
+        for column in result.columns:
+            result[column] = 7 if result[column].dtype.kind == "u" else -4.25e7
     run.count("class:twin_returned_arrays_overwritten")
 
 
